@@ -494,6 +494,10 @@ fn layer_normalization_impl(
         }
     };
 
+    if input.is_empty() {
+        return Ok(Tensor::zeros(input.shape()));
+    }
+
     let input = input.to_contiguous_in(pool);
 
     let mut output = pool.alloc(input.len());
